@@ -425,6 +425,14 @@ func runTE(c *mon.Ctx, g *te.Curve) {
 		}
 	}
 	c.SampleOnce(N, map[string]any{"curve": N, "scalar_classes": len(S)})
+	// last: the parameters handed out by the package are the caller's own copy (a scalar multiplication that reduces
+	// modulo a shared order is wrong for the rest of the process otherwise)
+	if g.GetterPrivate != nil {
+		if err := g.GetterPrivate(); err != nil {
+			c.Fail(g.Name+"/GetEdwardsCurve/returned-parameters-share-storage-with-the-package", "%v", err)
+		}
+		c.Eval("GetEdwardsCurve", 1)
+	}
 }
 
 func main() {
